@@ -97,7 +97,7 @@ def apply (d : DState) (op : Op) : DState × String :=
 def stepLine (d : DState) (line : String) : DState × String :=
   match fields line with
   | ["RESET"] => ({}, "ok")
-  | ["RESTART"] => ({ d with st := St.init d.st.db }, "ok")
+  | ["RESTART"] => apply d .restart
   | ["BLOB", id, h, "X"] =>
     match id.toNat?, h.toNat? with
     | some id, some h => ({ d with blobs := setBlob d.blobs id (h, none) }, "ok")
